@@ -153,9 +153,13 @@ def parse_vspec(path):
             spec['loops' if key == 'loop' else 'closures'][k] = cur
         elif key == 'at':
             m = re.match(r'\s*(before|after)\s+"((?:[^"\\]|\\.)*)"\s*(.*)$', rest)
-            if not m:
+            mr = re.match(r'\s*(before|after)\s+/((?:[^/\\]|\\.)*)/\s*(.*)$', rest)
+            if m:
+                cur = dict(where=m.group(1), anchor=bytes(m.group(2), 'utf-8').decode('unicode_escape'), text=m.group(3), rx=False)
+            elif mr:
+                cur = dict(where=mr.group(1), anchor=mr.group(2), text=mr.group(3), rx=True)
+            else:
                 raise SliceError('%s: bad at-line: %s' % (path, rest))
-            cur = dict(where=m.group(1), anchor=bytes(m.group(2), 'utf-8').decode('unicode_escape'), text=m.group(3))
             spec['ats'].append(cur)
         elif key in ('sub', 'sig'):
             m = re.match(r'\s*(?:(R\d+[a-z]?)\s+)?"((?:[^"\\]|\\.)*)"\s*=>\s*"((?:[^"\\]|\\.)*)"\s*$', rest)
@@ -512,15 +516,21 @@ class Weaver:
             log.append(('ghost', 'after-each /%s/: %d sites instrumented' % (ae['rx'], cnt)))
         # text anchors
         for at in spec['ats']:
-            cnt = mt.text.count(at['anchor'])
+            if at.get('rx'):
+                ms = list(re.finditer(at['anchor'], mt.text))
+                cnt = len(ms)
+                if cnt == 1:
+                    i, alen = ms[0].start(), ms[0].end() - ms[0].start()
+            else:
+                cnt = mt.text.count(at['anchor'])
+                i, alen = mt.text.find(at['anchor']), len(at['anchor'])
             if cnt != 1:
                 lost.append('hint anchor %r (matches %d times)' % (at['anchor'], cnt))
                 continue
-            i = mt.text.find(at['anchor'])
             if at['where'] == 'before':
                 mt.insert_line_at(i, hold(at['text']))
             else:
-                mt.insert_line_after(i + len(at['anchor']) - 1, hold(at['text']))
+                mt.insert_line_after(i + alen - 1, hold(at['text']))
         # loops: keyed by ordinal (source order) or by header text; resolved to offsets first, woven back to front
         msk = mask(mt.text)
         loops = find_loops(msk, 0, len(msk))
